@@ -355,7 +355,8 @@ pub fn dump_all_clusters(dir: &Path, decdir: &Path) {
             if pk.kind == b'c' && pk.origin + pk.size <= bytes.len() {
                 let pack = &bytes[pk.origin..pk.origin + pk.size];
                 if let Some(dec) = crate::cpdec::decode(pack) {
-                    let d = decdir.join(crate::out::hex(&pk.uuid));
+                    // keyed by uuid AND content: a damaged copy of the same pack must not shadow it
+                    let d = decdir.join(format!("{}-{:016x}", crate::out::hex(&pk.uuid), crate::out::fnv(pack)));
                     crate::cpdec::dump_clusters_published(pack, &dec, &d);
                 }
             }
